@@ -2,6 +2,7 @@ package wm
 
 import (
 	"fmt"
+	"go/constant"
 	"go/token"
 	"go/types"
 	"strings"
@@ -711,18 +712,52 @@ func OptionalHooksGuarded(c *Check, id string, rel string) {
 // defaultsFillNil: inside a setDefaults method, a field that is tested against nil is given a non-nil value on the edge
 // on which it was found nil — and only there (the rest of the package calls through such a field without looking again).
 func defaultsFillNil(c *Check, id string, rel string) {
+	isZero := func(v ssa.Value) bool {
+		k, ok := v.(*ssa.Const)
+		if !ok {
+			return false
+		}
+		if k.IsNil() {
+			return true
+		}
+		if k.Value == nil {
+			return true
+		}
+		switch k.Value.Kind() {
+		case constant.Int:
+			n, exact := constant.Int64Val(k.Value)
+			return exact && n == 0
+		case constant.String:
+			return constant.StringVal(k.Value) == ""
+		}
+		return false
+	}
 	for _, fn := range c.P.SrcFuncsRaw(rel) {
-		if fn.Parent() != nil || fn.Signature.Recv() == nil || (fn.Name() != "setDefaults" && fn.Name() != "SetDefaults") {
+		if fn.Parent() != nil || len(fn.Params) == 0 {
+			continue
+		}
+		isMethod := fn.Signature.Recv() != nil && (fn.Name() == "setDefaults" || fn.Name() == "SetDefaults")
+		isFunc := fn.Signature.Recv() == nil && strings.HasPrefix(fn.Name(), "applyDefaults")
+		if !isMethod && !isFunc {
 			continue
 		}
 		seen := map[*types.Var]bool{}
+		// the defaults confirmed on the reviewed tree (an emptied `if x == zero {}` leaves no test behind to hang a rule on)
+		if want, isKnown := confirmedDefaults[strings.Replace(fn.RelString(nil), ModulePath+"/", "", 1)]; isKnown {
+			defer func(fn *ssa.Function, want int) {
+				c.Floor(id, "defaults filled by "+strings.Replace(fn.RelString(nil), ModulePath+"/", "", 1), len(seen), want)
+			}(fn, want)
+		}
 		for _, t := range Tests(fn) {
-			if t.Y == nil || !IsNilConst(t.Y) && !IsNilConst(t.X) {
+			if t.Y == nil || (t.Op != token.EQL && t.Op != token.NEQ) {
 				continue
 			}
-			v := t.X
-			if IsNilConst(t.X) {
-				v = t.Y
+			v, z := t.X, t.Y
+			if isZero(t.X) {
+				v, z = t.Y, t.X
+			}
+			if !isZero(z) {
+				continue
 			}
 			F := LoadedField(firstOrigin(v))
 			if F == nil || seen[F] {
@@ -732,15 +767,38 @@ func defaultsFillNil(c *Check, id string, rel string) {
 				continue
 			}
 			seen[F] = true
-			isNil, _ := NilEdges(fn, func(x ssa.Value) bool { return AllOrigins(x, IsFieldLoad(F)) })
-			stores := FieldStores(fn, F)
-			okFill := len(stores) > 0 && len(isNil) > 0
+			// every test of this field against its zero value: the edge on which it is zero
+			var zeroEdges []Edge
+			for _, t2 := range Tests(fn) {
+				if t2.Y == nil || (t2.Op != token.EQL && t2.Op != token.NEQ) {
+					continue
+				}
+				v2, z2 := t2.X, t2.Y
+				if isZero(t2.X) {
+					v2, z2 = t2.Y, t2.X
+				}
+				if !isZero(z2) || LoadedField(firstOrigin(v2)) != F {
+					continue
+				}
+				if t2.Op == token.EQL {
+					zeroEdges = append(zeroEdges, t2.True)
+				} else {
+					zeroEdges = append(zeroEdges, t2.False)
+				}
+			}
+			var stores []*ssa.Store
+			for _, st := range FieldStores(fn, F) {
+				if _, base := FieldOf(st.Addr); base != nil && FromParam(fn.Params[0])(base) {
+					stores = append(stores, st)
+				}
+			}
+			okFill := len(stores) > 0 && len(zeroEdges) > 0
 			for _, st := range stores {
-				if !GuardedBy(fn, st, isNil) || IsNilConst(st.Val) || AnyOrigin(st.Val, IsFieldLoad(F)) {
+				if !GuardedBy(fn, st, zeroEdges) || isZero(st.Val) || AnyOrigin(st.Val, IsFieldLoad(F)) {
 					okFill = false
 				}
 			}
-			c.Report(okFill, id, "DEFAULT-FILLS-THE-NIL-FIELD", fn, t.If.Pos(), "default for "+F.Name(), "setDefaults gives the field a non-nil value exactly on the edge on which it was found nil (the package calls through it without looking again)")
+			c.Report(okFill, id, "DEFAULT-FILLS-THE-NIL-FIELD", fn, t.If.Pos(), "default for "+F.Name(), "the defaults function gives the field a non-zero value exactly on the edge on which it was found unset (the package uses it without looking again)")
 		}
 	}
 }
@@ -750,4 +808,20 @@ func loadAddr(v ssa.Value) ssa.Value {
 		return u.X
 	}
 	return nil
+}
+
+// confirmedDefaults: number of fields each defaults function fills, as read on the reviewed tree.
+var confirmedDefaults = map[string]int{
+	"(*components/cqrs.CommandBusConfig).setDefaults":            1,
+	"(*components/cqrs.CommandProcessorConfig).setDefaults":      1,
+	"(*components/cqrs.EventBusConfig).setDefaults":              1,
+	"(*components/cqrs.EventGroupProcessorConfig).setDefaults":   1,
+	"(*components/cqrs.EventProcessorConfig).setDefaults":        1,
+	"(*components/fanin.Config).setDefaults":                     1,
+	"(*components/forwarder.Config).setDefaults":                 2,
+	"(*components/forwarder.PublisherConfig).setDefaults":        1,
+	"(*components/requeuer.Config).setDefaults":                  1,
+	"(*components/requestreply.PubSubBackendConfig).setDefaults": 1,
+	"(*message.RouterConfig).setDefaults":                        1,
+	"message/router/middleware.applyDefaultsToDeduplicator":      2,
 }
